@@ -244,8 +244,8 @@ theorem replay_table (orders : Orders) (acc : List (Clause × Ver)) (ops : List 
 theorem table_solverInv (env : Env) : SolverInv env TableOk where
   setC := fun s i b h => h.set i _ rfl
   rem := fun s i up s' h hs => (graph_table 400).1 s i up s' h hs
-  addRepo := fun _ _ _ _ _ _ _ s' out _ h hs => (graph_table 400).2.1 _ _ _ _ _ _ s' out h hs
-  addMeta := fun _ _ _ s' out _ h hs => (graph_table 400).2.1 _ _ _ _ _ _ s' out h hs
+  addRepo := fun _ _ _ _ _ _ _ s' out h _ _ hs => (graph_table 400).2.1 _ _ _ _ _ _ s' out h hs
+  addMeta := fun _ _ _ s' out h _ _ hs => (graph_table 400).2.1 _ _ _ _ _ _ s' out h hs
 
 theorem tableOk_empty (acc : List (Clause × Ver)) : TableOk (s0 acc) :=
   ⟨by simp [s0], by intro p hp; simp [s0] at hp⟩
@@ -272,5 +272,243 @@ theorem one_pin_per_project (env : Env) (p : Problem) (acc : List (Clause × Ver
     (hk : a.1 = b.1) : a = b := by
   have h := (performCompile_table env p acc hin hcon).1
   exact eq_of_nodup_map _ _ h a ha b hb hk
+
+/-! ### a node holds a distribution of its own project -/
+
+/-- every node object that holds metadata carries the normalised name of that metadata as its key, and the table is a dict -/
+def Filed (s : St) : Prop :=
+  TableOk s ∧ ∀ i m, (s.get i).md = some m → (s.get i).key = normName m.name
+
+theorem Filed.set {s : St} (h : Filed s) (i : Id) (n : Node) (hk : n.key = (s.get i).key)
+    (hm : ∀ m, n.md = some m → n.key = normName m.name) : Filed (s.set i n) := by
+  refine ⟨h.1.set i n hk, ?_⟩
+  intro j m hj
+  rw [get_set] at hj ⊢
+  split
+  · rename_i hc; simp only [hc, and_self, if_true] at hj; exact hm m hj
+  · rename_i hc; simp only [hc, if_false] at hj; exact h.2 j m hj
+
+theorem Filed.set_same {s : St} (h : Filed s) (i : Id) (n : Node) (hk : n.key = (s.get i).key)
+    (hm : n.md = (s.get i).md) : Filed (s.set i n) :=
+  h.set i n hk (fun m e => by rw [hk]; exact h.2 i m (hm ▸ e))
+
+theorem Filed.set_none {s : St} (h : Filed s) (i : Id) (n : Node) (hk : n.key = (s.get i).key)
+    (hm : n.md = none) : Filed (s.set i n) :=
+  h.set i n hk (fun m e => by rw [hm] at e; cases e)
+
+theorem Filed.filter {s : St} (h : Filed s) (f : Name × Id → Bool) : Filed { s with nodes := s.nodes.filter f } :=
+  ⟨h.1.filter f, h.2⟩
+
+theorem key_set (s : St) (i j : Id) (n : Node) (hk : n.key = (s.get i).key) : ((s.set i n).get j).key = (s.get j).key := by
+  rw [get_set]; split
+  · rename_i hc; rw [hk, hc.1]
+  · rfl
+
+theorem lookup_some_mem (s : St) (key : Name) (i : Id) (h : s.lookup key = some i) : (key, i) ∈ s.nodes := by
+  unfold St.lookup at h
+  cases hf : s.nodes.find? (·.1 = key) with
+  | none => rw [hf] at h; cases h
+  | some p =>
+    rw [hf] at h
+    have hp := List.mem_of_find?_eq_some hf
+    have hk : p.1 = key := by simpa using List.find?_some hf
+    have hi : p.2 = i := by simpa using h
+    rw [← hk, ← hi]; exact hp
+
+theorem findOrCreate_filed (s : St) (key : Name) (mta : Option Meta) (h : Filed s)
+    (hm : ∀ m, mta = some m → key = normName m.name) :
+    Filed (findOrCreate s key mta).1 ∧ ((findOrCreate s key mta).1.get (findOrCreate s key mta).2).key = key := by
+  have ht := findOrCreate_table s key mta h.1
+  unfold findOrCreate at ht ⊢
+  split
+  · rename_i i hl
+    exact ⟨h, (h.1.2 (key, i) (lookup_some_mem s key i hl)).2⟩
+  · rename_i hl
+    rw [hl] at ht
+    refine ⟨⟨ht, ?_⟩, ?_⟩
+    · intro j m hj
+      simp only [St.get] at hj ⊢
+      by_cases hlt : j < s.heap.size
+      · have e : (s.heap.push { key := key, md := mta, deps := [], rdeps := [], complete := false }).getD j default = s.heap.getD j default := by
+          simp [Array.getD, hlt, Array.getElem_push_lt, Nat.lt_succ_of_lt hlt]
+        rw [e] at hj ⊢
+        exact h.2 j m hj
+      · by_cases he : j = s.heap.size
+        · subst he
+          simp [Array.getD] at hj ⊢
+          exact hm m hj
+        · have : ¬ j < s.heap.size + 1 := fun hh => by
+            rcases Nat.lt_succ_iff_lt_or_eq.1 hh with h1 | h1
+            · exact hlt h1
+            · exact he h1
+          simp [Array.getD, this] at hj
+          cases hj
+    · simp [St.get, Array.getD]
+
+
+theorem reopen_filed (s s' : St) (i : Id) (mta ta : Option Meta) (reason : Option Req) (h : Filed s)
+    (hr : reopenForExtras s i mta reason = .ok (s', ta)) :
+    Filed s' ∧ (∀ j, (s'.get j).key = (s.get j).key) ∧ (ta = mta ∨ ta = (s.get i).md) := by
+  unfold reopenForExtras at hr
+  split at hr
+  · rename_i q m hmd
+    split at hr
+    · obtain ⟨ex, _, hr⟩ := bind_ok hr
+      split at hr
+      · cases hr
+        exact ⟨h.set_same i _ rfl rfl, fun j => key_set s i j _ rfl, Or.inr hmd.symm⟩
+      · cases hr; exact ⟨h, fun _ => rfl, Or.inl rfl⟩
+    · cases hr; exact ⟨h, fun _ => rfl, Or.inl rfl⟩
+  · cases hr; exact ⟨h, fun _ => rfl, Or.inl rfl⟩
+
+theorem linkStep_filed (s : St) (i src : Id) (reason : Option Req) (h : Filed s) :
+    Filed (linkStep s i src reason) ∧ ∀ j, ((linkStep s i src reason).get j).key = (s.get j).key := by
+  unfold linkStep
+  split
+  · have h1 : Filed (s.set i (addRdep (s.get i) src)) := h.set_same i _ rfl rfl
+    have k1 : ∀ j, ((s.set i (addRdep (s.get i) src)).get j).key = (s.get j).key := fun j => key_set s i j _ rfl
+    refine ⟨h1.set_same src (setReason _ i reason) rfl rfl, ?_⟩
+    intro j
+    rw [key_set (s.set i (addRdep (s.get i) src)) src j (setReason ((s.set i (addRdep (s.get i) src)).get src) i reason) rfl]; exact k1 j
+  · exact ⟨h, fun _ => rfl⟩
+
+theorem linkOpt_filed (s : St) (i : Id) (source : Option Id) (reason : Option Req) (h : Filed s) :
+    Filed (linkOpt s i source reason) ∧ ∀ j, ((linkOpt s i source reason).get j).key = (s.get j).key := by
+  unfold linkOpt; split
+  · exact linkStep_filed s i _ reason h
+  · exact ⟨h, fun _ => rfl⟩
+
+def RemF (fuel : Nat) : Prop := ∀ s i up s', removeDists fuel s i up = .ok s' → Filed s → Filed s'
+def AddF (fuel : Nat) : Prop :=
+  ∀ s key mta src reason order s' out, addDist fuel s (key, mta) src reason order = .ok (s', out) → Filed s →
+    (∀ m, mta = some m → key = normName m.name) → Filed s'
+def UpdF (fuel : Nat) : Prop :=
+  ∀ s i m order s' out, updateDists fuel s i m order = .ok (s', out) → Filed s → (s.get i).key = normName m.name → Filed s'
+
+theorem remF_step (fuel : Nat) (ih : RemF fuel) : RemF (fuel+1) := by
+  intro s i up s' h hs
+  unfold removeDists at h
+  simp only at h
+  split at h
+  · cases h; exact hs
+  · obtain ⟨s2, hfold, h⟩ := bind_ok h
+    have hs1 : Filed (if up = true then
+        (s.get i).rdeps.foldl (fun st r => st.set r { st.get r with deps := (st.get r).deps.filter (·.1 ≠ i) })
+          { s with nodes := s.nodes.filter (·.1 ≠ (s.get i).key) }
+        else s) := by
+      split
+      · apply foldl_inv Filed
+        · intro st r hst; exact hst.set_same r _ rfl rfl
+        · exact hs.filter _
+      · exact hs
+    have hs2 : Filed s2 := by
+      refine foldlM_inv Filed _ ?_ _ _ _ hs1 hfold
+      intro st d st' hst hstep
+      split at hstep
+      · split at hstep
+        · cases hstep
+        · split at hstep
+          · exact ih _ _ _ _ hstep (hst.set_same d.1 _ rfl rfl)
+          · cases hstep; exact hst.set_same d.1 _ rfl rfl
+      · cases hstep; exact hst
+    split at h
+    · cases h; exact hs2.set_none i _ rfl rfl
+    · cases h; exact hs2
+
+theorem addF_step (fuel : Nat) (ihr : RemF fuel) (ihu : UpdF fuel) : AddF (fuel+1) := by
+  intro s key mta src reason order s' out h hs hm
+  unfold addDist at h
+  simp only at h
+  obtain ⟨x, hx, h⟩ := bind_ok h
+  obtain ⟨hfc, hfk⟩ := findOrCreate_filed s key mta hs hm
+  obtain ⟨hx1, hxk, hta⟩ := reopen_filed _ x.1 _ _ x.2 _ hfc (by rw [hx])
+  obtain ⟨hl, hlk⟩ := linkOpt_filed x.1 (findOrCreate s key mta).2 src reason hx1
+  split at h
+  · rename_i m hxm
+    obtain ⟨y, hy, h⟩ := bind_ok h
+    have hkey : ((linkOpt x.1 (findOrCreate s key mta).2 src reason).get (findOrCreate s key mta).2).key = normName m.name := by
+      rw [hlk, hxk, hfk]
+      rcases hta with e | e
+      · exact hm m (e ▸ hxm)
+      · have := hfc.2 _ m (e ▸ hxm)
+        rw [hfk] at this; exact this
+    have hy1 : Filed y.1 := ihu _ _ _ _ y.1 y.2 (by rw [hy]) hl hkey
+    split at h
+    · obtain ⟨s1, hs1, h⟩ := bind_ok h
+      have := ihr _ _ _ _ hs1 hy1
+      split at h
+      · cases h
+      · cases h; exact this
+    · obtain ⟨s1, hs1, h⟩ := bind_ok h
+      cases hs1
+      split at h
+      · cases h
+      · cases h; exact hy1
+  · obtain ⟨y, hy, h⟩ := bind_ok h
+    cases hy
+    split at h
+    · obtain ⟨s1, hs1, h⟩ := bind_ok h
+      have := ihr _ _ _ _ hs1 hl
+      split at h
+      · cases h
+      · cases h; exact this
+    · obtain ⟨s1, hs1, h⟩ := bind_ok h
+      cases hs1
+      split at h
+      · cases h
+      · cases h; exact hl
+
+theorem updF_step (fuel : Nat) (iha : AddF fuel) : UpdF (fuel+1) := by
+  intro s i m order s' out h hs hk
+  unfold updateDists at h
+  simp only at h
+  obtain ⟨ex, _, h⟩ := bind_ok h
+  have hs0 : Filed (s.set i { s.get i with md := some m }) :=
+    hs.set i _ rfl (fun m' e => by cases e; exact hk)
+  have : Filed (s', out).1 := by
+    refine foldlM_inv (fun (acc : St × List Id) => Filed acc.1) _ ?_ _ _ _ hs0 h
+    intro acc e acc' hacc hstep
+    obtain ⟨qs, _, hstep⟩ := bind_ok hstep
+    refine foldlM_inv (fun (acc : St × List Id) => Filed acc.1) _ ?_ _ _ _ hacc hstep
+    intro acc2 q acc2' hacc2 hstep2
+    obtain ⟨r, hr, hstep2⟩ := bind_ok hstep2
+    cases hstep2
+    exact iha _ _ _ _ _ _ r.1 r.2 (by rw [hr]) hacc2 (fun m e => by cases e)
+  exact this
+
+theorem graph_filed : ∀ fuel, RemF fuel ∧ AddF fuel ∧ UpdF fuel
+  | 0 => by
+    refine ⟨?_, ?_, ?_⟩
+    · intro s i up s' h; simp [removeDists] at h
+    · intro s key mta src reason order s' out h; simp [addDist] at h
+    · intro s i m order s' out h; simp [updateDists] at h
+  | fuel+1 =>
+    have ih := graph_filed fuel
+    ⟨remF_step fuel ih.1, addF_step fuel ih.1 ih.2.2, updF_step fuel ih.2.1⟩
+
+
+/-! ### through the solver -/
+
+theorem filed_solverInv (env : Env) : SolverInv env Filed where
+  setC := fun s i b h => h.set_same i _ rfl rfl
+  rem := fun s i up s' h hs => (graph_filed 400).1 s i up s' h hs
+  addRepo := fun _ _ m key _ _ _ s' out h _ hk hs =>
+    (graph_filed 400).2.1 _ _ _ _ _ _ s' out h hs (fun m' e => by cases e; exact hk)
+  addMeta := fun m key _ s' out h _ hk hs =>
+    (graph_filed 400).2.1 _ _ _ _ _ _ s' out h hs (fun m' e => by cases e; exact hk)
+
+/-- **pins_filed_under_their_project**: after `perform_compile`, whatever happened on the way, the node recorded under
+project key `k` holds — if it holds a distribution at all — a distribution whose normalised name is `k` -/
+theorem pins_filed_under_their_project (env : Env) (p : Problem) (acc : List (Clause × Ver))
+    (hin : ∀ m ∈ p.inputs, m.isMeta = true) (hcon : ∀ c ∈ p.constraints, c.1.isMeta = true)
+    (e : Name × Id) (he : e ∈ (performCompile env p (s0 acc)).1.nodes) (m : Meta)
+    (hm : ((performCompile env p (s0 acc)).1.get e.2).md = some m) : e.1 = normName m.name := by
+  have h : Filed (performCompile env p (s0 acc)).1 :=
+    performCompile_inv (filed_solverInv env) p (s0 acc)
+      ⟨tableOk_empty acc, fun i m h => by
+        have : ((s0 acc).get i).md = none := get_oob _ _ (by simp [s0])
+        rw [this] at h; cases h⟩ hin hcon
+  rw [← (h.1.2 e he).2]
+  exact h.2 e.2 m hm
 
 end RV.G
